@@ -406,7 +406,8 @@ impl Buffer {
         let mut updated_sixel = false;
         while let Some(handle) = self.sixel_threads.front() {
             if !handle.is_finished() {
-                return Ok(false);
+                // sixels delivered earlier in this call must still be reported
+                break;
             }
             let Some(handle) = self.sixel_threads.pop_front() else {
                 continue;
